@@ -158,6 +158,16 @@ class C06(Check):
                     v = V.gen_composite(rng, sec, in_range=rng.random() < 0.4, p_omit=0.2)
                     where = "%s[%d]%s value #%d %r" % (key, si, tag, i, v)
                     ref_bytes, marks = R.encode(res, key, si, v, with_header=False)
+                    if rng.random() < 0.25:
+                        # history: a *rejected* call (invalid value: the error surfaces part-way through the object) right before
+                        # the valid one, in the same process - nothing of the failed attempt may leak into the next result
+                        bad = poison_value(rng, sec, fill_defaults(res, sec, v))
+                        if bad is not None:
+                            try:
+                                pydsdl.serialize(real, bad)
+                                out.stats["poison_accepted"] += 1
+                            except Exception:
+                                out.stats["poison_rejected"] += 1
                     try:
                         real_bytes = pydsdl.serialize(real, v)
                     except Exception as ex:
@@ -212,6 +222,30 @@ class C06(Check):
             out.obs.append([len(node.types), out.stats["messages"]])
         finally:
             node.close()
+
+
+def poison_value(rng: random.Random, sec, full: dict):
+    """An invalid variant of a fully spelled value: the *last* field that can be made invalid gets an over-long array, a
+    wrong Python type or an unknown union variant (so that earlier fields are already written when the error surfaces)."""
+    import copy
+    if sec.union:
+        return {"no_such_variant_": 0}
+    bad = copy.deepcopy(full)
+    names = [n for n, _t in sec.fields if n is not None]
+    for n, t in reversed([(n, t) for n, t in sec.fields if n is not None]):
+        if t[0] == "var" and t[1][0] not in ("utf8",):
+            bad[n] = ([0] * (t[2] + 1)) if t[1][0] != "byte" else bytes(t[2] + 1)
+            return bad
+        if t[0] == "arr":
+            bad[n] = []
+            return bad
+        if t[0] in ("u", "i", "f", "bool"):
+            bad[n] = "not a number"
+            return bad
+        if t[0] == "ref":
+            bad[n] = "not a dict"
+            return bad
+    return None
 
 
 def type_features(res, sec, depth=0) -> set:
